@@ -111,9 +111,9 @@ def m1(ctx, rep):
                             f"the caller's `{p}` is modified in place", construct=f'{p}: {m.terminal}',
                             path=' -> '.join(m.path))
     rep.extra['parameters_analysed'] = n_params
-    if ctx.thorough:
+    if True:
         # cross-call escapes: a parameter stored in self by one public method and written in place by another
-        rep.rule('M1.escape', '(thorough) no public method writes in place into an attribute in which another public '
+        rep.rule('M1.escape', 'no public method writes in place into an attribute in which another public '
                  'method stored a caller-owned argument')
         for cls in prog.classes.values():
             stored = {}
